@@ -215,6 +215,8 @@ func (e webhookEntry) matches(op admissionregv1.OperationType, gvk schema.GroupV
 
 type hookClient struct {
 	client.Client
+	w       *world
+	actor   string
 	n       int
 	pauseAt int // -1: never
 	parked  chan struct{}
@@ -247,6 +249,11 @@ func (h *hookClient) Get(ctx context.Context, key client.ObjectKey, obj client.O
 func (h *hookClient) List(ctx context.Context, list client.ObjectList, opts ...client.ListOption) error {
 	if err := h.before(); err != nil {
 		return err
+	}
+	if h.w != nil {
+		// Nothing else writes while a reconcile is between two of its API calls, so
+		// this is the store at the instant of the List.
+		h.w.snapshotCandidates(h.actor, list)
 	}
 	return h.Client.List(ctx, list, opts...)
 }
@@ -322,6 +329,7 @@ var idents = []ident{
 	{"example.org", "Thing", "b"},
 	{"example.org", "Gadget", "a"},
 	{"other.org", "Thing", "a"},
+	{"example.org", "Thing", "c"},
 }
 
 var (
@@ -334,6 +342,12 @@ func (i ident) key() verifsim.Key { return verifsim.Key{Group: i.Group, Kind: i.
 
 func usageKey(name string) verifsim.Key {
 	return verifsim.Key{Group: usageGroup, Kind: "Usage", Name: name}
+}
+
+// candidate is what a selector can see of one resource.
+type candidate struct {
+	labels  map[string]string
+	ctrlUID string
 }
 
 type goneRec struct {
@@ -357,6 +371,7 @@ type world struct {
 	mu         sync.Mutex
 	lastGone   map[verifsim.Key]goneRec // last state of objects that are gone, and when they went
 	recStart   map[string]int           // actor of a reconcile -> sequence number of the last write before it started
+	listSnap   map[string]map[schema.GroupKind]map[string]candidate // actor -> kind -> name -> what its latest List of that kind could see
 	protUID    map[string]string // Usage UID -> UID of the used resource it protected when Ready was stored ("-" if none)
 	pending    *pendingVerdict
 	lastDenied bool
@@ -426,7 +441,7 @@ func named(u verifsim.Obj, which string) (k verifsim.Key, ok bool, gk schema.Gro
 }
 
 func newWorld(rec *verifkit.Recorder, fail func(string, ...any)) *world {
-	w := &world{sim: verifsim.New(scheme), rec: rec, fail: fail, protUID: map[string]string{}, lastGone: map[verifsim.Key]goneRec{}, recStart: map[string]int{}}
+	w := &world{sim: verifsim.New(scheme), rec: rec, fail: fail, protUID: map[string]string{}, lastGone: map[verifsim.Key]goneRec{}, recStart: map[string]int{}, listSnap: map[string]map[schema.GroupKind]map[string]candidate{}}
 	w.sim.ClusterScoped = func(schema.GroupKind) bool { return true }
 	w.raceOpen = verifkit.OpenFinding("C19", findingKey)
 
@@ -497,6 +512,7 @@ func (w *world) monitor(v *verifsim.View, wr *verifsim.Write) {
 		w.mu.Unlock()
 	}
 	if wr.Key.GK() == usageGK {
+		w.checkResolution(v, wr)
 		// (3a) the marker is on the used resource at the moment Ready=True is stored.
 		if wr.After != nil && isReady(wr.After) && !isReady(wr.Before) {
 			rk, ok, _ := named(wr.After, "of")
@@ -553,6 +569,108 @@ func (w *world) monitor(v *verifsim.View, wr *verifsim.Write) {
 			if u == nil || !ok || nk != wr.Key || !verifsim.Terminating(u) {
 				v.Violate("in-use marker removed from %s (write #%d) by the reconcile of %s, which is not a Usage of that resource that is being deleted", wr.Key, wr.Seq, wr.Actor)
 			}
+		}
+	}
+}
+
+func (w *world) snapshotCandidates(actor string, list client.ObjectList) {
+	gvk := list.GetObjectKind().GroupVersionKind()
+	gk := schema.GroupKind{Group: gvk.Group, Kind: strings.TrimSuffix(gvk.Kind, "List")}
+	if gk.Kind == "" || gk == usageGK {
+		return
+	}
+	snap := map[string]candidate{}
+	for _, k := range w.sim.Keys(gk) {
+		if o := w.sim.Get(k); o != nil {
+			snap[k.Name] = candidate{labels: verifsim.Labels(o), ctrlUID: verifsim.ControllerUID(o)}
+		}
+	}
+	w.mu.Lock()
+	if w.listSnap[actor] == nil {
+		w.listSnap[actor] = map[schema.GroupKind]map[string]candidate{}
+	}
+	w.listSnap[actor][gk] = snap
+	w.mu.Unlock()
+}
+
+// selectorOf returns the resourceSelector of spec.<which> of a stored Usage.
+func selectorOf(u verifsim.Obj, which string) (matchLabels map[string]string, matchCtrl, ok bool) {
+	sel, _ := verifsim.Nested(u, "spec", which, "resourceSelector").(map[string]any)
+	if sel == nil {
+		return nil, false, false
+	}
+	matchLabels = map[string]string{}
+	ml, _ := sel["matchLabels"].(map[string]any)
+	for k, v := range ml {
+		matchLabels[k] = fmt.Sprint(v)
+	}
+	matchCtrl, _ = sel["matchControllerRef"].(bool)
+	return matchLabels, matchCtrl, true
+}
+
+// valid is the documented meaning of a resource selector (apis/apiextensions
+// usage_types.go): "MatchLabels ensures an object with matching labels is
+// selected. MatchControllerRef ensures an object with the same controller
+// reference as the selecting object is selected." Two objects without any
+// controller do not have the same controller.
+func (c candidate) valid(matchLabels map[string]string, matchCtrl bool, usageCtrlUID string) bool {
+	for k, v := range matchLabels {
+		if got, ok := c.labels[k]; !ok || got != v {
+			return false
+		}
+	}
+	return !matchCtrl || (c.ctrlUID != "" && c.ctrlUID == usageCtrlUID)
+}
+
+// checkResolution judges the write with which a reconcile resolves a selector:
+// the resource it names must be one the selector selects, judged on the store
+// as it was at the instant of that reconcile's List.
+func (w *world) checkResolution(v *verifsim.View, wr *verifsim.Write) {
+	if !strings.HasPrefix(wr.Actor, "usage-reconcile/") || wr.After == nil {
+		return
+	}
+	for _, which := range []string{"of", "by"} {
+		nk, resolved, gk := named(wr.After, which)
+		if _, was, _ := named(wr.Before, which); was || !resolved {
+			continue
+		}
+		matchLabels, matchCtrl, ok := selectorOf(wr.After, which)
+		if !ok {
+			v.Violate("reconcile of Usage %s (write #%d) filled in spec.%s.resourceRef (%s) although spec.%s has no resourceSelector", wr.Key.Name, wr.Seq, which, nk.Name, which)
+			continue
+		}
+		w.mu.Lock()
+		snap, known := w.listSnap[wr.Actor][gk]
+		w.mu.Unlock()
+		if !known {
+			// The reconcile resolved without listing through its client: judge on the store now.
+			snap = map[string]candidate{}
+			for _, k := range v.List(gk) {
+				o := v.Get(k)
+				snap[k.Name] = candidate{labels: verifsim.Labels(o), ctrlUID: verifsim.ControllerUID(o)}
+			}
+		}
+		uCtrl := verifsim.ControllerUID(wr.After)
+		var validNames, uncontrolled []string
+		for n, c := range snap {
+			if c.valid(matchLabels, matchCtrl, uCtrl) {
+				validNames = append(validNames, n)
+			}
+			if c.ctrlUID == "" && c.valid(matchLabels, false, "") {
+				uncontrolled = append(uncontrolled, n)
+			}
+		}
+		sort.Strings(validNames)
+		sort.Strings(uncontrolled)
+		w.rec.Labelf("resolve:%s(matchControllerRef=%v)", which, matchCtrl)
+		if matchCtrl && uCtrl != "" && len(uncontrolled) > 0 {
+			w.nontrivial = true
+			w.rec.Labelf("resolve:uncontrolled-label-matching-candidate-for-controlled-usage(right-one-exists=%v)", len(validNames) > 0)
+		}
+		got, seen := snap[nk.Name]
+		if !seen || !got.valid(matchLabels, matchCtrl, uCtrl) {
+			v.Violate("selector resolution: reconcile of Usage %s (controller uid %q) resolved spec.%s.resourceSelector {matchLabels %v, matchControllerRef %v} to %s (seen by its List: %v, labels %v, controller uid %q), which the selector does not select; resources it does select: %v",
+				wr.Key.Name, uCtrl, which, matchLabels, matchCtrl, nk, seen, got.labels, got.ctrlUID, validNames)
 		}
 	}
 }
@@ -841,12 +959,42 @@ type recResult struct {
 	pan any
 }
 
+// labelSelectorClass counts, before a reconcile, the class "a controlled Usage
+// with matchControllerRef still has to resolve a selector while a label-matching
+// resource WITHOUT any controller exists".
+func (w *world) labelSelectorClass(name string) {
+	u := w.sim.Get(usageKey(name))
+	if u == nil {
+		return
+	}
+	uCtrl := verifsim.ControllerUID(u)
+	for _, which := range []string{"of", "by"} {
+		_, resolved, gk := named(u, which)
+		matchLabels, matchCtrl, ok := selectorOf(u, which)
+		if resolved || !ok || !matchCtrl || uCtrl == "" {
+			continue
+		}
+		right, uncontrolled := false, false
+		for _, k := range w.sim.Keys(gk) {
+			o := w.sim.Get(k)
+			c := candidate{labels: verifsim.Labels(o), ctrlUID: verifsim.ControllerUID(o)}
+			right = right || c.valid(matchLabels, true, uCtrl)
+			uncontrolled = uncontrolled || (c.ctrlUID == "" && c.valid(matchLabels, false, ""))
+		}
+		if uncontrolled {
+			w.nontrivial = true
+			w.rec.Labelf("reconcile:uncontrolled-label-matching-candidate-for-controlled-usage(spec.%s,right-one-exists=%v)", which, right)
+		}
+	}
+}
+
 func (w *world) newReconciler(name string, plan map[int]verifsim.Fault, pauseAt int) (*usagectl.Reconciler, *hookClient, *verifsim.Run) {
+	w.labelSelectorClass(name)
 	run := w.sim.NewRun("usage-reconcile/"+name, plan)
 	w.mu.Lock()
 	w.recStart[run.Actor] = w.lastSeq()
 	w.mu.Unlock()
-	hc := &hookClient{Client: run.Client(), pauseAt: pauseAt, parked: make(chan struct{}), release: make(chan struct{})}
+	hc := &hookClient{Client: run.Client(), w: w, actor: run.Actor, pauseAt: pauseAt, parked: make(chan struct{}), release: make(chan struct{})}
 	mgr := &fakeMgr{c: hc, scheme: scheme}
 	return usagectl.NewReconciler(mgr, usagectl.WithPollInterval(time.Minute)), hc, run
 }
